@@ -26,12 +26,13 @@ T == TraceLog[i]
 TNext == /\ UNCHANGED i
          /\ \/ /\ k < Len(T.events)
                /\ LET e == T.events[k + 1] IN
-                    IF e.kind = "SF" THEN ScenarioFinished(e.label, e.phase, e.shape) ELSE NonFatalError(e.label, e.phase)
+                    IF e.kind = "SF" THEN ScenarioFinished(e.label, e.phase, e.shape, e.final) ELSE NonFatalError(e.label, e.phase)
                /\ k' = k + 1
             \/ /\ k = Len(T.events) /\ EngineFinished /\ k' = k + 1
 TSpec == TInit /\ [][TNext]_tvars
 
 ToSet(q) == {q[j] : j \in 1..Len(q)}
+Min3(a, b, c) == LET m == IF a < b THEN a ELSE b IN IF m < c THEN m ELSE c
 K_chk == <<99, 104, 107>>
 TitleSeq(f) == IF f = 1 THEN <<70, 49>> ELSE <<70, 50>>
 SpecChecks(c) == [j \in 1..Len(c.checks) |->
@@ -50,7 +51,7 @@ VcrDiffs == IF ~T.vcr.written THEN {<<"vcr", 0, "missing">>}
                  IF ~flat.ok THEN {<<"vcr", flat.bad, "malformed">>}
                  ELSE (IF Y!NEntries(flat) = Len(cassette) THEN {} ELSE {<<"vcr", Y!NEntries(flat), "count">>})
                       \cup UNION {{<<"vcr", n, tag>> : tag \in Y!EntryDiffs(flat, n, X(n), FALSE) \cup Y!MetaDiffs(flat, n, cassette[n].meta)}
-                                  : n \in 1..(IF Len(T.exch) < Len(cassette) THEN Len(T.exch) ELSE Len(cassette))}
+                                  : n \in 1..Min3(Len(T.exch), Len(cassette), Y!NEntries(flat))}   \* entries that are missing are reported once, as "count"
 HarDiffsAll == IF ~T.har.ok THEN {<<"har", 0, "malformed">>}
                ELSE (IF Len(T.har.entries) = Len(cassette) THEN {} ELSE {<<"har", Len(T.har.entries), "count">>})
                     \cup UNION {{<<"har", n, tag>> : tag \in Y!HarDiffs(HPool[T.har.entries[n]], X(n), FALSE)}
